@@ -101,6 +101,12 @@ func (tr *Tor) CheckConservation(where string) {
 			if !r.HonestAdvert {
 				allHonest = false
 			}
+			if r.Stalled() {
+				// it is not reading: the peer actor serving it may be blocked in a write and has then not
+				// yet handled what this remote sent before the cut
+				allHonest = false
+				sw.C.Count("conservation_cuts_vs_remote_view_skipped_remote_not_reading", 1)
+			}
 		}
 	}
 	if allHonest && live == len(peers) {
